@@ -99,7 +99,9 @@ def build(cfg, out):
         kw.update(periodic=[], reflective=[])
     elif b == "one-empty":
         kw.update(periodic=[0], reflective=[])
-    return tempest.Sampler(prior, like, **kw)
+    s = tempest.Sampler(prior, like, **kw)
+    s._verif_requested = {k: (kw[k], list(kw[k])) for k in ("periodic", "reflective") if kw.get(k) is not None}
+    return s
 
 
 PER_RUN_SECONDS = 180
@@ -135,6 +137,19 @@ def _run_one(cfg, k):
         s.run(n_total=64, progress=False, save_every=cfg["save_every"])
     except Exception as e:
         return f"run raised {type(e).__name__}: {str(e)[:300]}"
+    # the option values are the caller's and the configuration's: a run leaves both as requested (the same option objects are routinely
+    # reused for the next sampler, and the configuration must still be the valid one that was accepted)
+    for k, (obj, want) in getattr(s, "_verif_requested", {}).items():
+        if list(obj) != want:
+            return f"the caller's {k} list {want} was changed to {list(obj)} by the run"
+        have = getattr(s._core.config, k, None)
+        if have is not None and [int(i) for i in have] != want:
+            return f"after the run the sampler's configuration holds {k} = {[int(i) for i in have]}, requested {want}"
+    try:
+        if hasattr(s._core.config, "validate"):
+            s._core.config.validate()
+    except Exception as e:
+        return f"after the run the sampler's own configuration no longer validates: {type(e).__name__}: {e}"
     st = s.state
     beta = st.get_current("beta")
     if not (1.0 - beta < 1e-4 + 1e-12):
